@@ -23,7 +23,7 @@ def phash(p):
 CONTINUE, CHANGED, CONTENT, BAD_REQUEST, INCOMPLETE, TOO_LARGE = 95, 68, 69, 128, 136, 141
 BOUNDARY = [0, 1, 15, 16, 17, 31, 32, 33, 63, 64, 65, 127, 128, 129, 255, 256, 257, 511, 512, 513, 1023, 1024, 1025, 1123, 1124, 1125,
             1126, 2047, 2048, 2049, 2148, 2149, 3000, 4096, 4097]
-N_KINDS = 17
+N_KINDS = 21
 log = logging.getLogger("c05-harness"); log.setLevel(logging.CRITICAL); log.propagate = False; log.addHandler(logging.NullHandler())
 for _n in ("coap", "coap-server"):      # the real Context logs expected assembly errors; keep the check's output clean
     _l = logging.getLogger(_n); _l.setLevel(logging.CRITICAL + 1); _l.addHandler(logging.NullHandler())
@@ -90,8 +90,18 @@ class RefServer:
         return self._respond(k, CONTENT, None, rq["block2"])
     def serve(self, rq):
         k = self.step
-        r = self.honest(rq)
         mis = self.scf.get("mis")
+        if mis is not None and mis[0] == k and mis[1] in (18, 19):
+            # answers with a LARGER block than asked for (size exponent grown by 1 / 2, policy ignored): the block of the larger size that
+            # contains the requested offset
+            rq = dict(rq)
+            if rq["block2"] is not None:
+                n, m, s_ = rq["block2"]; s2 = min(6, s_ + mis[1] - 17)
+                rq["block2"] = [(n << (s_ + 4)) >> (s2 + 4), m, s2]
+            saved = self.scf; self.scf = dict(saved, policy2=[6])
+            try: return self.honest(rq)
+            finally: self.scf = saved
+        r = self.honest(rq)
         if mis is not None and mis[0] == k: return mutate(mis[1], r)
         return r
 
@@ -116,6 +126,8 @@ def mutate(kind, r):
     elif kind == 15 and b1: b1[0] = 0
     elif kind == 16 and b2: b2[0] += 1; b2[1] = False
     elif kind == 17: r["etag"] = None
+    elif kind == 20 and b2: b2 = [b2[0] // 2, False, min(6, b2[2] + 1)]
+    elif kind == 21 and b2: b2 = [b2[0] // 2, b2[1], min(6, b2[2] + 1)]
     r["block1"] = b1; r["block2"] = b2
     return r
 
@@ -537,6 +549,13 @@ class C05(fw.Property):
             elif x < 0.6: k = rng.randint(0, 2)
             else: k = rng.randint(0, kf + (max(r["len"] for r in reps) >> 6) + 2)
             sc["mis"] = [k, rng.randint(1, N_KINDS)]
+            if sc["mis"][1] >= 18 or rng.random() < 0.12:
+                # the Block2 size exponent GROWS mid-transfer (aligned and misaligned block numbers, final and non-final blocks): needs a
+                # representation served in small blocks and a misbehaviour in the Block2 phase
+                sc["mis"] = [kf + rng.randint(1, 5), rng.choice([18, 18, 19, 20, 21])]
+                if rng.random() < 0.8: sc["policy2"] = [rng.randint(0, 3)]
+                for r in reps:
+                    if r["len"] < 100: r["len"] = rng.choice([129, 192, 193, 200, 230, 255, 256, 300, 321, 500])
         return sc
     def _script(self, rng, cc):
         """a mostly-valid response script: an honest exchange predicted from the RFC arithmetic, then damaged"""
@@ -568,7 +587,7 @@ class C05(fw.Property):
         for _ in range(nd):
             k = rng.randrange(len(script)); r = script[k]
             if r == "fail": continue
-            f = rng.randint(0, 12)
+            f = rng.randint(0, 14)
             if f == 0 and r["block1"]: r["block1"][0] = max(0, r["block1"][0] + rng.choice([-1, 1, 2]))
             elif f == 1 and r["block1"]: r["block1"][1] = not r["block1"][1]
             elif f == 2 and r["block1"]: r["block1"][2] = rng.randint(0, 6)
@@ -581,6 +600,10 @@ class C05(fw.Property):
             elif f == 9: r["block1"] = None if r["block1"] else [rng.randint(0, 3), rng.random() < 0.5, rng.randint(0, 6)]
             elif f == 10: r["block2"] = None if r["block2"] else [rng.randint(0, 2), rng.random() < 0.5, rng.randint(0, 6)]
             elif f == 11: script[k] = "fail"
+            elif f in (13, 14) and r["block2"] and r["block2"][2] < 6:
+                # Block2 size exponent grown, NUM rounded down to the block that contains the old offset (f = 14: claims to be final)
+                n_, m_, s_ = r["block2"]; s2 = min(6, s_ + rng.choice([1, 1, 2]))
+                r["block2"] = [(n_ << (s_ + 4)) >> (s2 + 4), False if f == 14 else m_, s2]
             elif f == 12: r["observe"] = rng.choice([0, 5, 5, 70000])          # Observe option on a response (early Block1 phase: protocol.py:979-986)
         if rng.random() < 0.1 and len(script) > 1: script = script[:rng.randrange(1, len(script))]
         if rng.random() < 0.1: script.append(dict(script[-1]) if script[-1] != "fail" else "fail")
